@@ -119,7 +119,7 @@ def run_scripted(events, extra_args=('-2',)):
     m.getaddrinfo = lambda host, port, family=0, stype=0, *a: [(real_socket.AF_INET, real_socket.SOCK_STREAM, 6, '', (host, port))]
     old = ss.socket
     ss.socket = m
-    buf = io.StringIO()
+    buf = fn.StrictStdout()     # a UTF-8 stdout: text that cannot be encoded raises, as on a terminal
     so, sa_argv = sys.stdout, sys.argv
     sys.stdout = buf
     sys.argv = ['ssh-audit.py', '-n', '--skip-rate-test'] + list(extra_args) + ['10.1.2.3']
